@@ -20,10 +20,12 @@ St == [files |-> files, store |-> store, loc |-> loc, pc |-> pc, queue |-> queue
        skips |-> {i \in Images : RefreshSkips(i)}]
 \* the actions that relate the two states of a transition (Crash, Fail and Refuse relate the same pairs of states;
 \* the harness realises them differently: BaseException / OSError at the put_item boundary or from its source /
-\* OSError from the open() of the store-side file inside the real put_item)
-Acts == {a \in {"Start", "NextImage", "BeginPut", "EndPut", "Rename", "Finish", "Crash", "Fail", "Refuse"} :
+\* OSError from the open() of the store-side file inside the real put_item / a real file-size limit or a failing
+\* os.replace while the real put_item writes)
+Acts == {a \in {"Start", "NextImage", "BeginPut", "EndPut", "Rename", "Finish", "Crash", "Fail", "Refuse", "StoreFail"} :
            CASE a = "Start" -> Start [] a = "NextImage" -> NextImage [] a = "BeginPut" -> BeginPut
              [] a = "EndPut" -> EndPut [] a = "Rename" -> Rename [] a = "Finish" -> Finish
-             [] a = "Crash" -> Crash [] a = "Fail" -> Fail [] a = "Refuse" -> Refuse}
+             [] a = "Crash" -> Crash [] a = "Fail" -> Fail [] a = "Refuse" -> Refuse
+             [] a = "StoreFail" -> StoreFail}
 EmitEdge == PrintT(<<"E", ToJson([s |-> St, t |-> St', acts |-> Acts])>>)
 =============================================================================
